@@ -1,15 +1,4 @@
-mod catalog;
-mod derived;
-mod drip;
-mod dripcase;
-mod engine;
-mod gens;
-mod graphgen;
-mod osfault;
-mod props;
-mod refmodel;
-mod ring;
-mod sched;
+use rrverif::{engine, osfault, props};
 
 use engine::{RunOpts, Tier, replay_property, run_property};
 
@@ -35,6 +24,7 @@ macro_rules! dispatch {
             "C12" => $f(&props::c12::C12, $($arg),*),
             "C13" => $f(&props::c13::C13, $($arg),*),
             "C14" => $f(&props::c14::C14, $($arg),*),
+            "C15" => $f(&props::c15::C15, $($arg),*),
             "C16" => $f(&props::c16::C16, $($arg),*),
             "C17" => $f(&props::c17::C17, $($arg),*),
             "C18" => $f(&props::c18::C18, $($arg),*),
@@ -48,6 +38,20 @@ fn main() {
     let args: Vec<String> = std::env::args().collect();
     if args.len() >= 3 && args[1] == "child" {
         std::process::exit(osfault::child_main(&args[2..]));
+    }
+    if args.len() >= 3 && args[1] == "gen-corpus" {
+        // writes the seed inputs of every fuzz target to <dir>/<target>/
+        for t in rrverif::fuzz_entry::TARGETS {
+            let d = std::path::Path::new(&args[2]).join(t);
+            std::fs::create_dir_all(&d).expect("corpus dir");
+            let mut seeds = props::c15::seed_inputs(t);
+            seeds.push(vec![0u8; 8]);
+            seeds.push((0..=255u8).collect());
+            for (i, s) in seeds.iter().enumerate() {
+                std::fs::write(d.join(format!("seed{i}")), s).expect("write seed");
+            }
+        }
+        return;
     }
     if args.len() < 4 || args[1] != "check" {
         usage();
